@@ -765,6 +765,10 @@ impl<'a> Machine<'a> {
                     self.c.out.faults.calls += 1;
                     let call_idx = self.c.call_idx;
                     let plan = self.c.plan;
+                    // the processor itself writes the return address below the stack pointer,
+                    // whatever the callee does afterwards
+                    let ret = p.addr.get(self.pc + 1).copied().unwrap_or(p.code_end);
+                    let _ = self.c.mem.poke_stack(sp.wrapping_sub(8), V::d(ret));
                     if plan.call_enabled(call_idx) {
                         if plan.e1_regs {
                             for r in CALLER_SAVED {
